@@ -26,7 +26,7 @@ T["C02"] = ("Lean theorems: the verdict of thread.Parallelize is the same for ev
 T["C05"] = ("Lean theorems: grammar lemmas for all strings (PascalCase / lower_snake / UPPER_SNAKE accepted and rejected forms, version-suffix grammar); a workspace satisfying the decidable Clean conditions yields no "
   "annotation; imports are skipped; every field/element kind at every depth is visited (field_visit_complete, nested_visit_complete, file_extension_reported); Lean PLANTING OPERATORS mirroring the harness's "
   "operator families with frame lemmas and 36 plant_* exactness theorems (Clean workspace, operator applicable => lint = exactly the planted annotation, co-violations named as iff), derived from the grammar lemmas; "
-  "for any number of violations the annotation set IS the violation set (violations_exact_elem/_group/_rpc_unique/_stable, annotation_has_violation); documentation-level readings of the comment/suffix/prefix/"
+  "the PACKAGE_SAME_* value space with unset vs explicit default (java_multiple_files_false_is_a_value, string_option_empty_is_unset); version grammar = exactly the documented forms (version_only_documented_forms); for any number of violations the annotation set IS the violation set (violations_exact_elem/_group/_rpc_unique/_stable, annotation_has_violation); documentation-level readings of the comment/suffix/prefix/"
   "standard-name rules. Tied on every run by exhaustive small-alphabet identifier strings through the real stringutil/protoversion functions and by clean-by-construction workspaces with planting operators "
   "stratified over (operator, KIND of element) through the real bufcheck.Client (rule, file, source path, line:column)",
   "Partial: PACKAGE_NO_IMPORT_CYCLE and STABLE_PACKAGE_NO_IMPORT_UNSTABLE have no planting theorem; ~25 rules' Clean condition is definitional (listed in clean_no_annotations' doc comment); PROTOVALIDATE oracle-only; "
@@ -76,7 +76,7 @@ T["C14"] = ("Lean theorems: every history of the memory-bucket model, with any p
   "walk_get_coherent by structural induction over EVERY combinator (base, prefix view, filter, union, overlay, external-path strip): a successful walk lists exactly what get finds, each key once; abstraction equations "
   "per combinator; union reports duplicates; copy = map union for arbitrary composite sources; a real archive model with untar(tar(m)) = m for tar and zip incl. strip-components (untar_tar …; the '._' skip is "
   "untar_tar_drops_apple_files_counterexample); the disk bucket as a file TREE equals the memory bucket on prefix-free histories (disk_refines_map) and differs without that hypothesis. Tied on every run by differential "
-  "histories over memory/disk/composite buckets incl. file-vs-directory conflicts, real Tar/Zip/Untar/Unzip with hostile archives, and a walk/get coherence oracle",
+  "histories over memory/disk/composite buckets incl. file-vs-directory conflicts, real Tar/Zip/Untar/Unzip with hostile archives, a walk/get coherence oracle, and a union/overlay oracle on every node of every expression (duplicates never hidden, first member wins, results independent of external paths)",
   "Trusted: Lean kernel; hand-written bucket/disk/archive models tied by correspondence; tar/zip byte codecs as library; symlinks not modelled")
 
 T["C15"] = ("Lean theorems for every fault schedule: a helper that reports success fired no fault and wrote the complete object (PutPath/CopyReader/CopyReadObject/ForWriteObject, parallel Copy under every job order, "
@@ -98,7 +98,7 @@ T["C16"] = ("Lean theorems at the structured level: buf.yaml v2 read/write round
   "trusted: Lean kernel, Config models tied by correspondence")
 
 T["C17"] = ("Lean theorems for every image with distinct paths and every plugin configuration of the model: targets generated exactly once, imports/WKTs exactly once when requested and never otherwise, no path twice, "
-  "strategy all = one request, each request dependency-closed and ordered (every image built by the C01 model is ordered: built_image_ordered), source-retention stripping only in the runtime view, every written file "
+  "strategy all = one request, archive (.jar/.zip) outs keyed by the archive's own path with the jar manifest (Props/C17Archive), each request dependency-closed and ordered (every image built by the C01 model is ordered: built_image_ordered), source-retention stripping only in the runtime view, every written file "
   "comes from a plugin that returned it and lies under THAT plugin's absolute out directory (writes_under_out, per plugin, down to the disk path), insertion points only touch same-run files, and the same output path "
   "produced twice is an error whatever the spelling of names and out directories (duplicate_output_is_error; the pre-fix key is duplicate_alias_counterexample, repaired by /repo 969fe1c). Tied on every run by the real "
   "ImageByDir/ImagesToCodeGeneratorRequests, the real response writer with hostile names and insertion points, and whole-generator runs",
@@ -106,13 +106,13 @@ T["C17"] = ("Lean theorems for every image with distinct paths and every plugin 
 
 T["C18"] = ("Lean theorems for all images and managed configs of the model, both preserve modes: FRAME over the full option lists (every file/field option managed mode does not govern for this file — unknown and custom options "
   "included, as hashes of their wire bytes — and the rest of the descriptor are unchanged: frame, modifiers_independent), WKT files untouched, disable rules, precedence as explicit specs (strSpec: last value wins, later "
-  "prefix/suffix blank it, then the default; precedence_str, precedence_jstype two-directional), marks = exactly the options whose value changed, sweep of source locations composed to Modify (modify_sweep_exact_partial), "
+  "prefix/suffix blank it, then the default; precedence_str, precedence_jstype two-directional), marks = exactly the options whose value changed, sweep of source locations composed to Modify (modify_sweep_exact: an iff per location on compiler-shaped source info at any option depth; modify_sweep_exact_partial in general), "
   "disabled mode is the identity, idempotence. Tied on every run by the complete post-state of the real descriptor after bufimagemodify.Modify on generated images x managed configs (incl. buf.gen.yaml v1/v2 text)",
   "Partial: for a FieldOptions parent location only the upper bound of the sweep is proved; default formulas, casing helpers, WKT list and YAML->rules translation are correspondence-only; trusted: Lean kernel; Managed model tied by correspondence")
 
 T["C03"] = ("Lean theorems, one per rule id (all 62 modelled ids), stated on ARBITRARY schema pairs (hypotheses constrain only the edited element, so unrelated surrounding changes are covered by construction), each APPLIED in an "
   "example on one witness pair carrying every edit family: deletions (fields/enum values with the reservation variants, messages, enums, extensions, services, RPCs, oneofs, files, packages incl. the last element of a package), "
-  "type / wire / wire+JSON group changes incl. the type NAME of message- and group/delimited-encoded fields and message_encoding flips, cardinality, name, JSON name, oneof, default, enum closedness, RPC request/response/"
+  "type / wire / wire+JSON group changes incl. the type NAME of message- and group/delimited-encoded fields and message_encoding flips, cardinality, name, JSON name, oneof, default (exact for 64-bit values: detects_integer_default_change), enum closedness, RPC request/response/"
   "streaming/idempotency, file package, syntax and the 16 tracked file options; the conclusion is Reports id a cur prev for EVERY category in which the rule is active (rules_active: decide over tables regenerated from /repo), "
   "and the annotation's source path resolves to the edited element (located_*). Tied by an 89-operator edit catalogue planted, stratified, at every KIND of field (scalar, message, enum, group, delimited by field feature / "
   "inherited, map, oneof member, proto3 optional, extension, packed/expanded) in proto2 / proto3 / editions files through the real Client.Breaking",
@@ -121,7 +121,7 @@ T["C03"] = ("Lean theorems, one per rule id (all 62 modelled ids), stated on ARB
 
 T["C04"] = ("Lean theorems for all schema pairs of the model: a well-formed schema compared with itself is clean in every category and config version; the only-adds relation is a formal catalogue of source edits (SchemaEdit.sound, "
   "additive_edits_clean), reflexive, transitive and clean, hence every later version of an additive chain against every earlier one (the closed-enum first-value exception is additive_first_enum_value_counterexample); "
-  "cosmetic edits are invisible; the hierarchy FILE => PACKAGE => WIRE_JSON => WIRE holds for ALL pairs from per-rule implication lemmas plus decide-theorems over the category and compatibility-group tables regenerated "
+  "cosmetic edits (incl. respelled defaults) are invisible; images with IMPORT files and the exclude-imports filter are modelled as coded (exclude_imports_only_removes, hierarchy_with_imports, exclude_imports_order_counterexample); the hierarchy FILE => PACKAGE => WIRE_JSON => WIRE holds for ALL pairs from per-rule implication lemmas plus decide-theorems over the category and compatibility-group tables regenerated "
   "from /repo on every run. Tied by generated schemas and edit chains — including 16-27-file images under parallelism 2 and 3 with permuted file order, so the chunked bufprotosource.NewFiles path runs — compiled with buf's "
   "builder and checked by the real Client.Breaking per category, single rule and config version",
   "Trusted: Lean kernel; Schema/Breaking models tied by correspondence (62 of 64 rule ids modelled; 2 custom-feature rules oracle-only); WF/KindsOK hypotheses evaluated by the driver per line; protocompile as parameter")
@@ -136,11 +136,11 @@ T["C06"] = ("Lean theorems for all use/except/ignore/ignore_only/comment configu
   "second extend block, leak from the first extend block); table translator harness/cmd/c06gen")
 
 T["C20"] = ("Lean theorems: exit status is 0 iff nothing to report, 100 iff the problem is in the user's sources, another non-zero otherwise — over a model of Go error VALUES through handleFileAnnotationSetRetError / the check "
-  "loop / wrapError / the app exit-code mapping as coded (under StepsOK, each clause shown necessary by a counterexample) and for all 16 `buf format` flag combinations; de-duplication drops only annotations equal on all "
+  "loop / wrapError / the app exit-code mapping as coded (under StepsOK, each clause shown necessary by a counterexample) and for all 16 `buf format` flag combinations, with a content-level model of the -w rewrite walk (every changed file holds exactly the formatter's output afterwards, the second run is clean: write_leaves_formatter_output, write_second_run_clean); de-duplication drops only annotations equal on all "
   "seven key fields and the sorted list is independent of input order; DECODER statements per format (formats_decode: parsing the printed text gives back the projected annotation list, for text / msvs / github-actions / "
   "json / junit, with the exact side conditions text_decode_iff / msvs_decode_iff) and the cross-format corollary (any two formats agree, in order, on every field both carry); one-line formats stay one line for any text. "
   "Tied on every run by generated annotation sets through the real printers (decoded by the Lean decoders and by independent Go decoders), by real error values fed through the code extracted from the working tree, and by "
-  "about a thousand runs of the real buf binary (lint / breaking / build / format in every mode, dep graph for import-not-found) on generated workspaces with planted problems",
+  "about a thousand runs of the real buf binary (lint / breaking / build / format in every mode, dep graph for import-not-found) on generated workspaces with problems planted at every phase (header scan, lexer, parser, linker) x input form x --error-format",
   "Trusted: Lean kernel; Annot model tied by correspondence; encoding/json and encoding/xml escaping are library (decoded on every case); a failing write of the annotations is not modelled")
 
 T["C08"] = ("Lean theorems for all file sets and dependency lists of the model: manifest text round-trips and is injective for every node list accepted by NewFileNode (which, after /repo 8ef24f2, rejects a line feed in a path: the two former U+000A findings are repaired; the pre-fix behaviour stays as counterexample theorems), the digest is a function of the module-file set (any walk order, non-module files ignored, dep order "
@@ -148,6 +148,20 @@ T["C08"] = ("Lean theorems for all file sets and dependency lists of the model: 
   "sets (moduleSet_sensitive: a changed file of a transitive local dependency changes every dependant's digest; moduleDigest_fuel_any_numbering); module-file matcher constants are regenerated from /repo and pinned by a "
   "decide-theorem. Tied on every run by generated file sets across memory/disk/tar/shuffled-walk backends, perturbations, and an independent SHAKE256 recomputation of the published b5 construction",
   "Trusted: Lean kernel; Manifest/Digest model tied by correspondence; hash H is a parameter (table computed by Go); SHAKE256 collision resistance is a hypothesis; ModuleDeps resolution is an input")
+
+T["C11"] = ("Lean theorems: under the property's side condition (no --path inside an --exclude-path, all modules targeted) image-level path filtering and module-level targeting select the same files with the same import flags "
+  "(as a permutation; decide-counterexamples show each hypothesis is needed), image<->proto-image field mapping round-trips, stripping the buf extension removes exactly field 8042 and is the identity on malformed bytes; "
+  "the legacy-option stripping applied when an image is READ (stripLegacyOptions) is modelled on descriptor trees with an explicit pointer discipline: it never mutates its input, strips exactly the legacy options "
+  "(message_set_wire_format, weak, extension numbers clipped to 2^29-1) at every nesting depth and touches nothing else (legacy_strip_never_mutates_input, legacy_strip_result_exact, legacy_spec_frame, idempotent; the "
+  "code is copied verbatim from the working tree into a probe and compared). Encoders/decoders (binpb, json, txtpb, yaml; gzip, zstd; 12 combinations and their spellings), source packagings (directory, tar in three "
+  "header formats, tar.gz, zip, git, buf export of everything incl. vendored well-known types in named and unnamed modules) and lint/breaking on image vs sources under every config shape are decided by the "
+  "correspondence and the oracle through the real buf binary on every run (field-by-field proto.Equal, byte-stable rewrite)",
+  "Partial: codec round trips, packagings and check results on images are correspondence/oracle only; file ORDER differs legitimately between the two implementations (both topological) so equality is stated as a "
+  "permutation; 5 recorded findings; trusted: Lean kernel, ImagePaths/LegacyStrip models tied by correspondence, proto.CloneOf is a deep copy")
+
+T["C19"] = ("Lean theorems for all BUF_TOKEN strings and all netrc machine lists: a token reaches a host only if exactly that token@host entry (or the host-less token, or the netrc machine/default entry) was configured; malformed "
+  "strings are rejected as a whole; first source wins; whole chain from bufcli config to the interceptor. Exhaustive small-alphabet + random correspondence with the real providers, interceptor and loopback HTTP servers on every run",
+  "Trusted: Lean kernel; hand-written model of bufconnect/netrc/connectclient tied by correspondence; go-netrc's lexer, net/http and connect-go not modelled; 1 recorded finding (netrc VALUE spelled `default`)")
 
 
 def main():
